@@ -36,6 +36,9 @@ SIM = {
     "r11-triples": consts(MaxN=8, MaxP=3, MaxD=2, PType=1, PoolS="R11S", PoolP="R11P", PoolO="R11O"),
     "r11-quads":   consts(MaxN=8, MaxP=4, MaxD=2, PType=2, PoolS="R11S", PoolP="R11P", PoolO="R11O", PoolG="R11G"),
     "r11-graphs":  consts(MaxN=8, MaxP=4, MaxD=2, PType=3, PoolS="R11S", PoolP="R11P", PoolO="R11O", PoolG="R11G"),
+    # dense universes: pools so small that consecutive statements share terms all the time (elision right after quoted triples, graph names, literals)
+    "dense-qt":    consts(MaxN=8, MaxP=2, MaxD=1, PType=1, PoolS="QtS", PoolP="QtP", PoolO="QtO"),
+    "dense-qt-q":  consts(MaxN=8, MaxP=2, MaxD=1, PType=2, PoolS="QtS", PoolP="QtP", PoolO="QtO", PoolG="QdG"),
 }
 PFX_ATOMS = ("a/", "b#", "b/", "c/", "d#", "")
 
@@ -53,6 +56,13 @@ def c18_universes():
     out["c18-name-8"] = ("name", consts(MaxN=8, MaxP=1, CheckFits=False, AllowReject=True, PoolS="C18NmS", PoolP="C18NmP", PoolO="C18NmO"))
     out["c18-name-8np"] = ("name", consts(MaxN=8, MaxP=0, CheckFits=False, AllowReject=True, PoolS="C18NmS", PoolP="C18NmP", PoolO="C18NmO"))
     return out
+
+# state-graph comparison with refusals (small pools: every reachable state x every call is walked on real objects)
+WG = {
+    "wg-c18p": consts(MaxP=2, PType=1, CheckFits=False, AllowReject=True, PoolS="C18IriS", PoolP="C18IriS", PoolO="C18IriS"),
+    "wg-c18pq": consts(MaxP=3, PType=2, CheckFits=False, AllowReject=True, PoolS="C18IriS", PoolP="PfxP", PoolO="C18IriS", PoolG="C18IriS"),
+    "wg-c18d": consts(MaxD=1, PType=1, CheckFits=False, AllowReject=True, PoolS="C18DtS", PoolP="C18DtS", PoolO="C18DtS"),
+}
 
 # C20: rejections at every slot, for each cause
 C20 = {
